@@ -23,8 +23,11 @@ for d in sorted(glob.glob(os.path.join(HERE, 'seeded', 'C*-*'))):
     caught_by = []
     missed_by = []
     keys = []
-    for pid, runs in sorted(v.get('checks', {}).items()):
+    own = False
+    prop = m.get('property', name.split('-')[0])
+    for pid, runs in sorted(v.get('checks', {}).items(), key=lambda kv: (kv[0] != prop, kv[0])):
         if runs and all(r['exit'] == 1 and r['violations'] > 0 for r in runs):
+            own = own or pid == prop
             caught_by.append('%s (VERIF_SEED %s)' % (pid, ','.join(str(r['seed']) for r in runs)))
             keys.extend(k.split('   (cases')[0] for k in runs[0]['keys'][:2])
         else:
@@ -32,7 +35,7 @@ for d in sorted(glob.glob(os.path.join(HERE, 'seeded', 'C*-*'))):
     summary = (m.get('summary') or m.get('mechanism') or '').strip().replace('\n', ' ')
     needs = (m.get('needs_to_manifest') or '').strip().replace('\n', ' ')
     rows.append(dict(name=name, prop=m.get('property', name.split('-')[0]), confirmed=confirmed, caught=caught_by, missed=missed_by,
-                     keys=keys, summary=summary, needs=needs, note=NOTES.get(name, '')))
+                     keys=keys, own=own, summary=summary, needs=needs, note=NOTES.get(name, '')))
 
 out = ['# Seeded property-breaking changes', '',
        'Each directory holds `patch.diff` (against openstack/yaql), `demo.py` (exit 0 on the unchanged tree, exit 1 with the change) and',
@@ -42,6 +45,8 @@ out = ['# Seeded property-breaking changes', '',
        '| seed | change | needs to manifest | confirmed | caught by | first finding keys |', '|---|---|---|---|---|---|']
 for r in rows:
     caught = ', '.join(r['caught']) if r['caught'] else ('**missed by %s**' % ', '.join(r['missed']) if r['missed'] else 'not run')
+    if r['missed'] and r['caught']:
+        caught += '; not by %s' % ', '.join(r['missed'])
     if r['note']:
         caught += ' — ' + r['note']
     out.append('| %s | %s | %s | %s | %s | %s |' % (r['name'], r['summary'][:260].replace('|', '/'), r['needs'][:260].replace('|', '/'),
@@ -50,8 +55,13 @@ for r in rows:
 open(os.path.join(HERE, 'seeded', 'RESULTS.md'), 'w').write('\n'.join(out) + '\n')
 n = len(rows)
 c = sum(1 for r in rows if r['caught'])
-print('%d seeds, %d confirmed, %d caught by their property check, %d missed' % (
-    n, sum(1 for r in rows if r['confirmed']), c, n - c))
+o = sum(1 for r in rows if r['own'])
+line = '%d seeds, %d confirmed, %d caught by the check of the property they were written against, %d more only by another registered check, %d missed' % (
+    n, sum(1 for r in rows if r['confirmed']), o, c - o, n - c)
+print(line)
+out.insert(7, line + '.')
+out.insert(8, '')
+open(os.path.join(HERE, 'seeded', 'RESULTS.md'), 'w').write('\n'.join(out) + '\n')
 for r in rows:
-    if not r['caught']:
-        print('  missed:', r['name'], r['missed'], r['note'])
+    if not r['own']:
+        print('  not own:', r['name'], 'caught', r['caught'], 'missed', r['missed'], r['note'])
